@@ -148,7 +148,7 @@ package kcp
 // kcp.go — shared representation invariant of the protocol core
 // ===================================================================================
 //
-//@ spec itimediff(later int, earlier int) int = int32(later - earlier)
+//@ spec itimediff(later int, earlier int) int = s32(subu32(later, earlier))
 //
 //@ func _itimediff pure
 //@   ensures result == itimediff(later, earlier)
@@ -224,15 +224,15 @@ package kcp
 //@ pred segb(s segment, mss int) = (s.acked == 1 && s.data == nil) || (cap(s.data) == 1500 && len(s.data) <= mss)
 //@ pred (kcp *KCP) wfSq() = forall i int :: 0 <= i && i < kcp.snd_queue.rlen() ==> segq(kcp.snd_queue.at(i), kcp.mss)
 //@ pred (kcp *KCP) wfSb() = forall i int :: 0 <= i && i < kcp.snd_buf.rlen() ==> segb(kcp.snd_buf.at(i), kcp.mss)
-//@ pred (kcp *KCP) wfSn() = (forall i int :: 0 <= i && i < kcp.snd_buf.rlen() ==> kcp.snd_buf.at(i).sn == uint32(kcp.snd_una + i))
-//@      && kcp.snd_nxt == uint32(kcp.snd_una + kcp.snd_buf.rlen())
+//@ pred (kcp *KCP) wfSn() = (forall i int :: 0 <= i && i < kcp.snd_buf.rlen() ==> kcp.snd_buf.at(i).sn == addu32(kcp.snd_una, i))
+//@      && kcp.snd_nxt == addu32(kcp.snd_una, kcp.snd_buf.rlen())
 //@ pred (kcp *KCP) wfW() = 0 < kcp.snd_wnd && kcp.snd_wnd < 2147483648 && 0 < kcp.rcv_wnd && kcp.rcv_wnd < 2147483648
 //@      && kcp.snd_buf.rlen() <= kcp.snd_wnd && kcp.rcv_queue.rlen() <= kcp.rcv_wnd
 //@ pred (kcp *KCP) wfS() = kcp.wfSq() && kcp.wfSb() && kcp.wfSn()
 //
 // INV-A: pending acknowledgements (Input flushes the list before it reaches mtu/24 entries at
 // a method boundary; inside one Input call it can be longer).
-//@ pred (kcp *KCP) wf() = kcp.wfR() && kcp.wfM() && kcp.wfT() && kcp.wfS() && kcp.wfW()
+//@ pred (kcp *KCP) wf() = kcp.wfR() && kcp.wfM() && kcp.wfT() && kcp.wfS() && kcp.wfW() && kcp.wfH()
 //
 //@ func NewKCP
 //@   requires output != nil
@@ -284,6 +284,7 @@ package kcp
 //@   modifies all(kcp.snd_buf), kcp.snd_buf.elements[..]
 //@   ensures kcp.wfR() && kcp.wfSb()
 //@   ensures 0 <= result && result <= old(kcp.snd_buf.rlen()) && kcp.snd_buf.rlen() == old(kcp.snd_buf.rlen()) - result
+//@   ensures kcp.snd_buf.elements == old(kcp.snd_buf.elements)
 //@   ensures forall i int :: 0 <= i && i < kcp.snd_buf.rlen() ==> kcp.snd_buf.at(i) == old(kcp.snd_buf.at(i + result))
 //@   ensures forall i int :: 0 <= i && i < result ==> itimediff(una, old(kcp.snd_buf.at(i).sn)) > 0
 //@   ensures result < old(kcp.snd_buf.rlen()) ==> itimediff(una, old(kcp.snd_buf.at(result).sn)) <= 0
@@ -348,7 +349,7 @@ package kcp
 //@   requires kcp.wfR() && kcp.wfW() && kcp.wfH() && len(newseg.data) <= 1500
 //@   modifies kcp.rcv_nxt, all(kcp.rcv_queue), kcp.rcv_queue.elements[..], all(kcp.rcv_buf), kcp.rcv_buf.segments[..], mapof(kcp.rcv_buf.marks)
 //@   ensures @C04 kcp.wfR() && kcp.wfW() && kcp.wfH()
-//@   ensures kcp.snd_wnd == old(kcp.snd_wnd) && kcp.rcv_wnd == old(kcp.rcv_wnd)
+//@   ensures kcp.rcv_queue.sameOrFresh() && kcp.rcv_buf.sameOrFresh()
 //@   loop 1 invariant kcp.wfR() && kcp.wfW() && kcp.wfH() && kcp.rcv_queue.sameOrFresh() && kcp.rcv_buf.sameOrFresh()
 //
 //@ func KCP.Send
@@ -357,3 +358,62 @@ package kcp
 //@   ensures kcp.wfR() && kcp.wfSq()
 //@   ensures result == 0 || result == 0 - 1 || result == 0 - 2
 //@   loop 2 invariant 0 <= i && kcp.wfR() && kcp.wfSq() && kcp.snd_queue.sameOrFresh()
+//
+// The core's output callback (C10): never more than the MTU, never empty, never beyond the buffer.
+//@ callback KCP.output
+//@   requires @C10 [output-size-positive] 0 < size
+//@   requires @C10 [output-size-within-mtu] size <= self.mtu
+//@   requires size <= len(buf)
+//
+//@ pred suffixOf(p []byte, b []byte) = ref(p) == ref(b) && off(b) <= off(p) && off(p) + len(p) == off(b) + len(b)
+//
+//@ func KCP.flush
+//@   requires kcp.wf()
+//@   modifies all(kcp), all(kcp.snd_queue), kcp.snd_queue.elements[..], all(kcp.snd_buf), kcp.snd_buf.elements[..], kcp.buffer[..], all(DefaultSnmp)
+//@   ensures kcp.wf()
+//@   ensures kcp.conv == old(kcp.conv) && kcp.mtu == old(kcp.mtu) && kcp.mss == old(kcp.mss) && kcp.buffer == old(kcp.buffer)
+//@   ensures kcp.snd_wnd == old(kcp.snd_wnd) && kcp.rcv_wnd == old(kcp.rcv_wnd) && kcp.rcv_nxt == old(kcp.rcv_nxt)
+//@   ensures kcp.rcv_queue == old(kcp.rcv_queue) && kcp.rcv_buf == old(kcp.rcv_buf) && kcp.snd_queue == old(kcp.snd_queue) && kcp.snd_buf == old(kcp.snd_buf)
+//@   ensures kcp.rx_rto == old(kcp.rx_rto) && kcp.rx_minrto == old(kcp.rx_minrto) && kcp.interval == old(kcp.interval)
+//@   ensures kcp.snd_una == old(kcp.snd_una) && len(kcp.acklist) <= old(len(kcp.acklist))
+//@   ensures 0 < result && result <= kcp.interval
+//@   loop 1 invariant suffixOf(ptr, buffer) && len(buffer) - len(ptr) <= kcp.mtu
+//@   loop 2 invariant kcp.wfR() && kcp.wfS() && kcp.wfW() && newSegsCount >= 0
+//@   loop 2 invariant kcp.snd_queue.sameOrFresh() && kcp.snd_buf.sameOrFresh()
+//@   loop 3 invariant suffixOf(ptr, buffer) && len(buffer) - len(ptr) <= kcp.mtu
+//@   loop 3 invariant kcp.snd_buf.clean() && kcp.wfSb() && kcp.wfSn() && 0 < nextUpdate && nextUpdate <= kcp.interval
+//
+//@ pred sameOrFreshSlice(a []ackItem, b []ackItem) = ref(a) == ref(b) || fresh(a)
+//
+//@ func KCP.Input
+//@   requires kcp.wf()
+//@   modifies all(kcp), all(kcp.snd_queue), kcp.snd_queue.elements[..], all(kcp.snd_buf), kcp.snd_buf.elements[..]
+//@   modifies all(kcp.rcv_queue), kcp.rcv_queue.elements[..], all(kcp.rcv_buf), kcp.rcv_buf.segments[..], mapof(kcp.rcv_buf.marks)
+//@   modifies kcp.buffer[..], kcp.acklist[..], all(DefaultSnmp)
+//@   ensures kcp.wf()
+//@   ensures result == 0 || result == 0 - 1 || result == 0 - 2 || result == 0 - 3
+//@   ensures kcp.conv == old(kcp.conv) && kcp.mtu == old(kcp.mtu) && kcp.snd_wnd == old(kcp.snd_wnd) && kcp.rcv_wnd == old(kcp.rcv_wnd)
+//@   loop 1 invariant kcp.wf() && (flushSegments == 0 || flushSegments == 1) && (updateRTT == 0 || updateRTT == 1) && inSegs >= 0
+//@   loop 1 invariant kcp.snd_queue.sameOrFresh() && kcp.snd_buf.sameOrFresh() && kcp.rcv_queue.sameOrFresh() && kcp.rcv_buf.sameOrFresh()
+//@   loop 1 invariant (ref(kcp.acklist) == old(ref(kcp.acklist)) || fresh(kcp.acklist))
+//@   loop 1 invariant kcp.conv == old(kcp.conv) && kcp.mtu == old(kcp.mtu) && kcp.mss == old(kcp.mss) && kcp.buffer == old(kcp.buffer) && kcp.output == old(kcp.output)
+//@   loop 1 invariant kcp.snd_wnd == old(kcp.snd_wnd) && kcp.rcv_wnd == old(kcp.rcv_wnd)
+//@   loop 1 invariant kcp.snd_queue == old(kcp.snd_queue) && kcp.snd_buf == old(kcp.snd_buf) && kcp.rcv_queue == old(kcp.rcv_queue) && kcp.rcv_buf == old(kcp.rcv_buf)
+//
+//@ func KCP.Recv
+//@   requires kcp.wf()
+//@   modifies kcp.rcv_nxt, kcp.probe, all(kcp.rcv_queue), kcp.rcv_queue.elements[..], all(kcp.rcv_buf), kcp.rcv_buf.segments[..], mapof(kcp.rcv_buf.marks), buffer[..]
+//@   ensures @C04 kcp.wf()
+//@   ensures result >= 0 - 2
+//@   loop 1 invariant kcp.wfR() && kcp.wfW() && kcp.wfH() && n >= 0 && kcp.rcv_queue.elements == old(kcp.rcv_queue.elements) && ref(buffer) == ref(old(buffer))
+//@   loop 2 invariant kcp.wfR() && kcp.wfW() && kcp.wfH() && kcp.rcv_queue.sameOrFresh() && kcp.rcv_buf.sameOrFresh()
+//
+//@ func KCP.Update
+//@   requires kcp.wf()
+//@   modifies all(kcp), all(kcp.snd_queue), kcp.snd_queue.elements[..], all(kcp.snd_buf), kcp.snd_buf.elements[..], kcp.buffer[..], all(DefaultSnmp)
+//@   ensures kcp.wf()
+//
+//@ func KCP.Check
+//@   requires kcp.wf()
+//@   modifies nothing
+//@   loop 1 invariant true
